@@ -22,10 +22,10 @@
 //! injection is exhausted.
 
 use crate::budget::{BudgetEnforcer, EnforcingPolicy};
-use crate::buffered_input::{ChunkedChars, buffered_input_from_reader_with_limit};
+use crate::buffered_input::{ChunkedChars, ReaderTail, buffered_input_from_reader_with_limit};
 use crate::de::{AliasLimits, Budget, Error, Ev, Events, Location};
 use crate::de_error::budget_error;
-use crate::location::location_from_span_in;
+use crate::location::{MarkInput, location_from_span_in};
 use crate::options::BudgetReportCallback;
 use crate::tags::SfTag;
 use saphyr_parser::{BufferedInput, Event, Parser, ScalarStyle, ScanError, Span, StrInput};
@@ -80,6 +80,8 @@ pub(crate) struct LiveEvents<'a> {
     parser: SaphyrParser<'a>,
     /// Original input string (for zero-copy borrowing). `None` for reader-based input.
     input: Option<&'a str>,
+    /// For reader input: the reader's account of the characters it delivered.
+    reader_tail: Option<std::rc::Rc<ReaderTail>>,
 
     /// Whether any content event has been produced in the current stream.
     produced_any_in_doc: bool,
@@ -166,13 +168,14 @@ impl<'a> LiveEvents<'a> {
     ) -> Self {
         // Build a streaming character iterator from the byte reader, honoring input byte cap if configured
         let max_bytes = budget.as_ref().and_then(|b| b.max_reader_input_bytes);
-        let (input, error) = buffered_input_from_reader_with_limit(inputs, max_bytes);
+        let (input, error, tail) = buffered_input_from_reader_with_limit(inputs, max_bytes);
         let parser = Parser::new(input);
         Self {
             produced_any_in_doc: false,
             synthesized_null_emitted: false,
             parser: SaphyrParser::StreamParser(parser),
             input: None, // Reader-based input cannot support zero-copy borrowing
+            reader_tail: Some(tail),
             look: None,
             inject: Vec::with_capacity(2),
             anchors: Vec::with_capacity(8),
@@ -219,6 +222,7 @@ impl<'a> LiveEvents<'a> {
             synthesized_null_emitted: false,
             parser: SaphyrParser::StringParser(Parser::new_from_str(input)),
             input: Some(input),
+            reader_tail: None,
             look: None,
             inject: Vec::with_capacity(2),
             anchors: Vec::with_capacity(8),
@@ -319,8 +323,8 @@ impl<'a> LiveEvents<'a> {
         }
 
         // 2) Pull from the real parser
-        let input = self.input;
         while let Some(item) = self.parser.next() {
+            let input = self.mark_input();
             let (raw, span) = item.map_err(|err| Error::from_scan_error_in(err, input))?;
             let location = location_from_span_in(&span, input);
 
@@ -775,6 +779,22 @@ impl<'de> Events<'de> for LiveEvents<'de> {
 }
 
 impl<'a> LiveEvents<'a> {
+    /// What is known about the input behind the parser's marks right now.
+    fn mark_input(&self) -> MarkInput<'a> {
+        if let Some(text) = self.input {
+            return MarkInput::Text(text);
+        }
+        match self.reader_tail.as_ref().and_then(|tail| tail.ended_in_line()) {
+            Some((total_chars, last_line_chars)) => MarkInput::ReaderEndedInLine {
+                total_chars,
+                last_line_chars,
+            },
+            None => MarkInput::Unknown,
+        }
+    }
+}
+
+impl<'a> LiveEvents<'a> {
     pub(crate) fn seen_doc_end(&self) -> bool {
         self.seen_doc_end
     }
@@ -803,7 +823,7 @@ impl<'a> LiveEvents<'a> {
                 // Syntax error while skipping; treat as EOF
                 return false;
             };
-            let location = location_from_span_in(&span, self.input);
+            let location = location_from_span_in(&span, self.mark_input());
             self.last_location = location;
 
             match raw {
